@@ -1062,14 +1062,72 @@ COVERED_FILES = ["grammar/expressions/sequence.py", "grammar/expressions/choice.
                  "grammar/codegen/generate.py"]
 
 
+class LineCollector:
+    """which lines of the mirrored Python files run (thorough tier, evidence only).  Built on sys.monitoring: one callback per
+    line location, switched off after its first hit, no locks - the `coverage` package's tracer takes a lock inside its
+    callback, and a timeout exception delivered by SIGALRM at that moment left it held: the worker then waited for it for ever
+    (the cause of three thorough-tier runs that never finished)"""
+
+    def __init__(self, files):
+        self.files = set(files)
+        self.hit: dict = collections.defaultdict(set)
+        self.tool = None
+
+    def start(self) -> None:
+        import sys
+        mon = getattr(sys, "monitoring", None)
+        if mon is None:
+            return
+        for tool in (mon.COVERAGE_ID, 3, 4):
+            try:
+                mon.use_tool_id(tool, "verif-lines")
+                self.tool = tool
+                break
+            except ValueError:
+                continue
+        if self.tool is None:
+            return
+        files, hit, disable = self.files, self.hit, mon.DISABLE
+
+        def on_line(code, lineno):
+            f = code.co_filename
+            if f in files:
+                hit[f].add(lineno)
+            return disable
+
+        mon.register_callback(self.tool, mon.events.LINE, on_line)
+        mon.set_events(self.tool, mon.events.LINE)
+
+    def stop(self) -> None:
+        import sys
+        if self.tool is not None:
+            mon = sys.monitoring
+            mon.set_events(self.tool, 0)
+            mon.register_callback(self.tool, mon.events.LINE, None)
+            mon.free_tool_id(self.tool)
+            self.tool = None
+
+    @staticmethod
+    def executable_lines(path: str) -> set:
+        try:
+            code = compile(Path(path).read_text(), path, "exec")
+        except (OSError, SyntaxError):
+            return set()
+        out, todo = set(), [code]
+        while todo:
+            c = todo.pop()
+            out |= {ln for _s, _e, ln in c.co_lines() if ln}
+            todo += [k for k in c.co_consts if hasattr(k, "co_lines")]
+        return out
+
+
 def worker(job):
     prop, shard, n_random, tier, sd, do_bundled = job
     use_repo()
     cov = None
     if tier == "thorough" and shard < 4:
         try:
-            import coverage
-            cov = coverage.Coverage(data_file=None, include=[str(REPO / "src" / "pest" / f) for f in COVERED_FILES])
+            cov = LineCollector([str(REPO / "src" / "pest" / f) for f in COVERED_FILES])
             cov.start()
         except Exception:  # noqa: BLE001
             cov = None
@@ -1080,13 +1138,10 @@ def worker(job):
             cov.stop()
     if cov is not None:
         lines = {}
-        data = cov.get_data()
-        for f in data.measured_files():
-            try:
-                _, stmts, _, missing, _ = cov.analysis2(f)
-                lines[str(Path(f).relative_to(REPO / "src" / "pest"))] = (sorted(set(stmts) - set(missing)), len(stmts))
-            except Exception:  # noqa: BLE001, S112
-                continue
+        for f in cov.files:
+            stmts = LineCollector.executable_lines(f)
+            if stmts:
+                lines[str(Path(f).relative_to(REPO / "src" / "pest"))] = (sorted(cov.hit.get(f, set()) & stmts), len(stmts))
         res["lines"] = lines
     return res
 
